@@ -860,7 +860,7 @@ func ruleConstLitSource(c *Ctx, rule string) {
 			guarded := false
 			for _, g := range guardEdges(b) {
 				bo, ok := g.If.Cond.(*ssa.BinOp)
-				if !ok || bo.Op != token.EQL || !g.Truth {
+				if !ok || (bo.Op != token.EQL && bo.Op != token.NEQ) || (bo.Op == token.EQL) != g.Truth {
 					continue
 				}
 				for _, pr := range [][2]ssa.Value{{bo.X, bo.Y}, {bo.Y, bo.X}} {
@@ -893,7 +893,7 @@ func ruleConstLitSource(c *Ctx, rule string) {
 		// or a test of the symbol's scope on the way to the store
 		for _, g := range guardEdges(at) {
 			bo, ok := g.If.Cond.(*ssa.BinOp)
-			if !ok || bo.Op != token.EQL || !g.Truth {
+			if !ok || (bo.Op != token.EQL && bo.Op != token.NEQ) || (bo.Op == token.EQL) != g.Truth {
 				continue
 			}
 			for _, pr := range [][2]ssa.Value{{bo.X, bo.Y}, {bo.Y, bo.X}} {
